@@ -105,6 +105,7 @@ PROPS["C04"] = dict(
              shards=dict(quick=2, thorough=8), timeout=dict(quick=300, thorough=1800)),
         dict(name="concurrent", pkg="c04", run="TestConcurrent", race=True, checks=dict(quick=1600, thorough=8000),
              shards=dict(quick=4, thorough=16), timeout=dict(quick=300, thorough=1800)),
+        dict(name="hammer", pkg="c04", run="TestHammerOneKey", race=True, shards=dict(quick=2, thorough=8), timeout=dict(quick=300, thorough=1800)),
     ],
 )
 
@@ -467,10 +468,10 @@ PROPS["C18"] = dict(
                  "liveness is judged at detected quiescence; a slow machine yields 'inconclusive'"],
     runs=[
         dict(name="regress", pkg="c18", run="TestRegress", timeout=300),
-        dict(name="constants", pkg="c18", run="TestConstants", timeout=400),
+        dict(name="constants", pkg="c18", run="TestConstants", timeout=400, mem_gb=48),
         dict(name="states", pkg="c18", run="TestProtocolStates", shards=16, timeout=dict(quick=400, thorough=2400)),
-        dict(name="random", pkg="c18", run="TestRandom", checks=dict(quick=800, thorough=10000), shards=16, timeout=dict(quick=400, thorough=2400), shrinktime="60s"),
-        dict(name="nativefuzz", pkg="c18", fuzz="FuzzClientBytes", run="FuzzClientBytes", fuzztime=dict(thorough=150), tiers=("thorough",)),
+        dict(name="random", pkg="c18", run="TestRandom", checks=dict(quick=800, thorough=10000), shards=16, timeout=dict(quick=400, thorough=2400), shrinktime="60s", mem_gb=48),
+        dict(name="nativefuzz", pkg="c18", fuzz="FuzzClientBytes", run="FuzzClientBytes", fuzztime=dict(thorough=150), parallel=8, tiers=("thorough",)),
     ],
 )
 
@@ -529,5 +530,6 @@ PROPS["C20"] = dict(
         dict(name="storm", pkg="c20", run="TestStorm", race=True, checks=dict(quick=480, thorough=8000), shards=16, timeout=dict(quick=400, thorough=2400)),
         # the in-flight table's concurrent programs live in the C04 package; they are part of this property too
         dict(name="inflight", pkg="c04", run="TestConcurrent", race=True, checks=dict(quick=1600, thorough=8000), shards=dict(quick=4, thorough=16), timeout=dict(quick=300, thorough=1800)),
+        dict(name="hammer", pkg="c04", run="TestHammerOneKey", race=True, shards=dict(quick=2, thorough=8), timeout=dict(quick=300, thorough=1800)),
     ],
 )
